@@ -421,6 +421,8 @@ func runC08(c *Ctx) {
 	runC08NoAlias(c)
 	runC08Packed(c)
 	runC08EnumLookup(c)
+	runC08Bounds(c)
+	runC08Buffers(c)
 }
 
 func uniq(a, b string) []string {
